@@ -18,8 +18,8 @@ import (
 // and case variants are frequent.
 
 var (
-	hostNicks = []string{"me", "ME", "alice", "Alice", "bob", "b[o]b", "B{O}B", "carol", "x", "nick^", "NICK~", "café", "a-b", "0day", "", "al ice"}
-	hostChans = []string{"#chan", "#CHAN", "#c[1]", "#C{1}", "&local", "#x", "+m", "!ABCDEname", "notachan", "", "#a b", "#caf\xc3\xa9"}
+	hostNicks = []string{"me", "ME", "alice", "Alice", "bob", "d\\w", "b[o]b", "B{O}B", "D|W", "carol", "x", "nick^", "NICK~", "café", "a-b", "0day", "", "al ice"}
+	hostChans = []string{"#chan", "#CHAN", "#log\\x", "#c[1]", "#C{1}", "#LOG|x", "&local", "#x", "+m", "!ABCDEname", "notachan", "", "#a b", "#caf\xc3\xa9"}
 	hostCmds  = []string{"JOIN", "PART", "KICK", "QUIT", "NICK", "353", "MODE", "324", "352", "354", "TOPIC", "332", "004", "005", "375", "372",
 		"CHGHOST", "AWAY", "ACCOUNT", "001", "PRIVMSG", "NOTICE", "PING", "PONG", "433", "436", "437", "CAP", "AUTHENTICATE", "900", "902", "903", "904", "905", "906", "907", "908", "366", "ERRORX"}
 	ctcpTags = []string{"VERSION", "PING", "PONG", "TIME", "FINGER", "SOURCE", "ACTION", "CLIENTINFO", "X1", "version", "", "A B"}
@@ -87,6 +87,37 @@ func joinedPrefix() []Ev {
 		{HasSrc: true, Name: "srv", Cmd: "353", Params: []string{"me", "=", "#chan", "me @alice +bob carol"}},
 		{HasSrc: true, Name: "me", Ident: "u", Host: "h", Cmd: "JOIN", Params: []string{"#c[1]"}},
 		{HasSrc: true, Name: "srv", Cmd: "353", Params: []string{"me", "=", "#c[1]", "me alice b[o]b"}}}
+}
+
+// foldHistories: one identity in both RFC1459 spellings, over all four special pairs
+// [ { , \ | , ] } , ^ ~ : JOIN in one spelling, NAMES / NICK / KICK / PART / QUIT in the other.
+func foldHistories(route string) []Case {
+	var out []Case
+	me := func(cmd string, ps ...string) Ev {
+		return Ev{HasSrc: true, Name: "me", Ident: "u", Host: "h", Cmd: cmd, Params: ps}
+	}
+	srv := func(cmd string, ps ...string) Ev { return Ev{HasSrc: true, Name: "srv", Cmd: cmd, Params: ps} }
+	by := func(n, cmd string, ps ...string) Ev {
+		return Ev{HasSrc: true, Name: n, Ident: "i", Host: "h", Cmd: cmd, Params: ps}
+	}
+	pairs := [][4]string{{"d\\w", "D|W", "#log\\x", "#LOG|X"}, {"a[b]", "A{B}", "#c[1]", "#C{1}"}, {"n^", "N~", "#t^", "#T~"}, {"x[\\]^", "X{|}~", "#[\\]^", "#{|}~"}}
+	for _, p := range pairs {
+		n1, n2, c1, c2 := p[0], p[1], p[2], p[3]
+		head := []Ev{srv("001", "me", "welcome"), me("JOIN", c1), srv("353", "me", "=", c2, "me @"+n2+" +other"), by(n1, "JOIN", c2), me("JOIN", "#second"), srv("353", "me", "=", "#second", "me "+n1)}
+		tails := [][]Ev{
+			{by(n2, "PART", c1)},
+			{srv("KICK", c2, n1, "bye")},
+			{by(n1, "NICK", n2), by(n2, "PART", c2)},
+			{by(n2, "QUIT", "gone")},
+			{me("PART", c2), by(n2, "PART", "#second")},
+			{by("other", "NICK", n2), by(n1, "PART", c1)},
+			{srv("MODE", c1, "+o", n2), srv("352", "me", c2, "id", "host", "srv", n2, "H", "0 Real"), by(n1, "JOIN", c1)},
+		}
+		for _, t := range tails {
+			out = append(out, EncodeHistory(route, "me", "user", append(append([]Ev{}, head...), t...)))
+		}
+	}
+	return out
 }
 
 // shapeHistories: for every shape and every kind of source (none, a tracked user, ourselves,
@@ -454,9 +485,11 @@ var slowFailures int
 
 func init() {
 	Register(&Suite{
-		Name:  "state.hostile",
-		Prop:  []string{"C05"},
-		Fixed: func() []Case { return append(shapeHistories("feed"), isupportHistories("feed")...) },
+		Name: "state.hostile",
+		Prop: []string{"C05"},
+		Fixed: func() []Case {
+			return append(append(shapeHistories("feed"), isupportHistories("feed")...), foldHistories("feed")...)
+		},
 		Gen: func(r *rand.Rand) Case {
 			n := 3 + r.Intn(40)
 			evs := []Ev{}
@@ -701,6 +734,7 @@ func init() {
 					fixed = append(fixed, c)
 				}
 			}
+			fixed = append(fixed, foldHistories("conn")...)
 			return fixed
 		},
 		Gen: func(r *rand.Rand) Case {
